@@ -110,6 +110,9 @@ class ProgRunner:
                     self.model_mismatch.append((c, io, mo, "impl %s vs model %s" % (iv, mv)))
                 if iv not in V3 and not iv.startswith("proof-fails"):
                     self.model_mismatch.append((c, io, mo, "impl outcome %s has no model counterpart" % iv))
+                if c.get("expect") == "sizeerr" and iv != "sizeerr":
+                    self.impl_fail.append((c, io, "the instance has another number of constraints / public-input rows than the compiled "
+                                                  "description: the property prescribes the size-mismatch error, implementation says %s" % iv))
                 if c.get("expect") in ("sat", "unsat") and iv in ("sat", "unsat") and iv != c["expect"]:
                     self.impl_fail.append((c, io, "property says %s, implementation says %s" % (c["expect"], iv)))
                 if c.get("expect") in ("sat", "unsat") and mv in ("sat", "unsat") and mv != c["expect"]:
